@@ -939,6 +939,16 @@ def a_concretize(eng, x):
     return eng.concretize_int(x, "api.concretize")
 
 
+def a_round15(eng, x):
+    if isinstance(x, SymFloat) and x.dec is not None:
+        if len(x.dec[1]) > 15:
+            raise Unsupported("round15 of a value with more than 15 digits")
+        return SymFloat(dec=x.dec)
+    if is_sym(x):
+        raise Unsupported("round15 of symbolic " + type(x).__name__)
+    return float("%.15g" % x)
+
+
 def a_is_symbolic(eng, x):
     return deep_sym(x)
 
@@ -1165,7 +1175,7 @@ def m_sigfig_round(eng, x, *a, **kw):
     n = kw.get("sigfigs", a[0] if a else None)
     if isinstance(x, SymFloat) and x.dec is not None and n is not None and "decimals" not in kw and kw.get("type") is None:
         if len(x.dec[1]) <= n:
-            return x
+            return x if x.noise is None else SymFloat(dec=x.dec)      # 15-digit rounding removes a few ulp of noise
         raise Unsupported("sigfig.round of a value with more significant digits than requested")
     if deep_sym(x):
         raise Unsupported("sigfig.round on symbolic value")
@@ -1201,7 +1211,7 @@ def install(eng):
         math.floor: m_floor, math.ceil: m_ceil, math.trunc: m_trunc,
         api.assume: a_assume, api.nondet_bool: a_nondet_bool, api.nondet_int: a_nondet_int,
         api.nondet_bv: a_nondet_bv, api.nondet_bytes: a_nondet_bytes, api.nondet_str: a_nondet_str, api.opaque_bytes: a_opaque_bytes, api.cover: a_cover,
-        api.is_symbolic: a_is_symbolic, api.concretize: a_concretize,
+        api.is_symbolic: a_is_symbolic, api.round15: a_round15, api.concretize: a_concretize,
     })
     M[math.log2] = m_log2
 
